@@ -302,7 +302,7 @@ def clause_gcf_pairing(ctx):
     fn = F.fn
     # initial contact point: scaled once on a private copy
     sets = [c for c in calls_in(fn) if isinstance(c.func, ast.Attribute)
-            and c.func.attr == "set" and "contact_point" in norm(c.func.value)]
+            and c.func.attr == "set" and "contact_point" in F.r(c.func.value)]
     ini = [c for c in sets if not F.r(c.func.value).startswith(f"{fv}.")]
     fin = [c for c in sets if F.r(c.func.value).startswith(f"{fv}.")]
     ctx.check(len(ini) == 1, fn, f"{len(ini)} scaling(s) of the initial "
